@@ -1,4 +1,4 @@
-(* C13/ProofsBlob.v — the property at the level of Blob.ReadAt, on the tree with the F15 patch:
+(* C13/ProofsBlob.v — the property at the level of Blob.ReadAt, on the tree on the current code (fx = true, fix e1cfae8):
    for every blob, offset and length, reading through the erasure-coded locations returns exactly what reading the
    replicated tracts returns (count, error class, bytes), provided every packed tract of the blob is well placed
    and its direct piece is available.  Uses: every range readAt hands to a tract is non-empty. *)
